@@ -17,6 +17,8 @@
 package main
 
 import (
+	"encoding/binary"
+	"os"
 	"context"
 	"fmt"
 	"sort"
@@ -37,7 +39,7 @@ import (
 
 func genGrp(a hx.Args) {
 	r := hx.NewRng(a.Seed)
-	n := a.N(60, 1200)
+	n := a.N(150, 1500)
 	for i := 0; i < n; i++ {
 		bal := r.Intn(5)
 		parts := 2 + r.Intn(6)
@@ -47,7 +49,11 @@ func genGrp(a hx.Args) {
 		commitms := hx.Pick(r, []int{100, 300, 1000})
 		restarts := r.Intn(3)
 		records := 100 + r.Intn(300)
-		hx.Emit("grp %d %d %d %d %d %d %d %d %d", r.U64()%1000000, bal, parts, brokers, slots, blockpoll, commitms, restarts, records)
+		// connection faults on the group protocol (about half of the scenarios): the connection carrying a
+		// JoinGroup/SyncGroup/Heartbeat/OffsetCommit/LeaveGroup/ConsumerGroupHeartbeat request is cut before the
+		// broker sees the request, after it handled it (response lost), or a little later (while a join is parked)
+		faultpct := hx.Pick(r, []int{0, 0, 3, 8})
+		hx.Emit("grp %d %d %d %d %d %d %d %d %d %d", r.U64()%1000000, bal, parts, brokers, slots, blockpoll, commitms, restarts, records, faultpct)
 	}
 }
 
@@ -68,8 +74,12 @@ func partsStr(m map[string][]int32) string {
 }
 
 func runGrp(t *testing.T, tk []string) string {
-	if tk[0] != "grp" || len(tk) != 10 {
+	if tk[0] != "grp" || (len(tk) != 10 && len(tk) != 11) {
 		return "bad-op"
+	}
+	faultpct := 0
+	if len(tk) == 11 {
+		faultpct = int(hx.Atoi(tk[10]))
 	}
 	seed := uint64(hx.Atoi(tk[1]))
 	bal, parts, brokers, slots := int(hx.Atoi(tk[2])), int(hx.Atoi(tk[3])), int(hx.Atoi(tk[4])), int(hx.Atoi(tk[5]))
@@ -79,6 +89,104 @@ func runGrp(t *testing.T, tk []string) string {
 	sim.Partial.Store(&partial)
 	defer sim.Partial.Store(nil)
 	net := &sim.Net{}
+	var faultsOn atomic.Bool
+	faultsOn.Store(true)
+	var fmu sync.Mutex
+	frng := hx.NewRng(seed ^ 0x67727066)
+	net.Fault = func(key int16, nth int, frame []byte) sim.Action {
+		if faultpct == 0 || !faultsOn.Load() {
+			return sim.Pass
+		}
+		switch key {
+		case 8, 11, 12, 13, 14, 68:
+		default:
+			return sim.Pass
+		}
+		fmu.Lock()
+		defer fmu.Unlock()
+		pct := faultpct
+		if key == 11 || key == 14 {
+			pct *= 4 // joins and syncs are rare and are where a retry matters most
+		}
+		if frng.Intn(100) >= pct {
+			return sim.Pass
+		}
+		switch frng.Intn(3) {
+		case 0:
+			hx.St.Inc(fmt.Sprintf("fault.grp.killbefore.key%d", key))
+			return sim.KillBefore
+		case 1:
+			hx.St.Inc(fmt.Sprintf("fault.grp.dropafter.key%d", key))
+			return sim.DropAfter
+		}
+		hx.St.Inc(fmt.Sprintf("fault.grp.killlater.key%d", key))
+		return sim.KillLater
+	}
+	t0 := time.Now()
+	_ = t0
+	if os.Getenv("VERIF_GRP_WIRE") != "" { // debugging aid: the KIP-848 heartbeats on the wire, with the fault decision
+		fmtTs := func(ts []kmsg.ConsumerGroupHeartbeatRequestTopic) string {
+			if ts == nil {
+				return "nil"
+			}
+			var ps []int
+			for _, t := range ts {
+				for _, p := range t.Partitions {
+					ps = append(ps, int(p))
+				}
+			}
+			sort.Ints(ps)
+			return fmt.Sprint(ps)
+		}
+		var wmu sync.Mutex
+		pend := map[int][]string{}
+		net.OnRequest = func(conn int, key int16, frame []byte, act sim.Action) {
+			if key != 68 {
+				return
+			}
+			req := kmsg.NewPtrConsumerGroupHeartbeatRequest()
+			req.Version = int16(binary.BigEndian.Uint16(frame[2:]))
+			clen := int(binary.BigEndian.Uint16(frame[8:]))
+			body := frame[10+clen+1:]
+			mid := "?"
+			if err := req.ReadFrom(body); err == nil {
+				mid = req.MemberID
+				if len(mid) > 4 {
+					mid = mid[:4]
+				}
+			}
+			wmu.Lock()
+			pend[conn] = append(pend[conn], mid)
+			wmu.Unlock()
+			log.Add("Hq:%d:%s:e%d:%s:act%d:t%d", conn, mid, req.MemberEpoch, strings.ReplaceAll(fmtTs(req.Topics), " ", ","), act, time.Since(t0).Milliseconds())
+		}
+		net.OnResponse = func(conn int, key int16, frame []byte, delivered bool) {
+			if key != 68 {
+				return
+			}
+			resp := kmsg.NewPtrConsumerGroupHeartbeatResponse()
+			resp.Version = 1
+			wmu.Lock()
+			mid := "?"
+			if len(pend[conn]) > 0 {
+				mid = pend[conn][0]
+				pend[conn] = pend[conn][1:]
+			}
+			wmu.Unlock()
+			as := "nil"
+			if err := resp.ReadFrom(frame[5:]); err == nil && resp.Assignment != nil {
+				var ps []int
+				for _, t := range resp.Assignment.Topics {
+					for _, p := range t.Partitions {
+						ps = append(ps, int(p))
+					}
+				}
+				sort.Ints(ps)
+				as = fmt.Sprint(ps)
+			}
+			log.Add("Hr:%d:%s:e%d:err%d:%s:dlv%v:t%d", conn, mid, resp.MemberEpoch, resp.ErrorCode, strings.ReplaceAll(as, " ", ","), delivered, time.Since(t0).Milliseconds())
+		}
+	}
 	ports := make([]int, brokers)
 	base := int(9000 + (portBase.Add(1)%500)*10)
 	for i := range ports {
@@ -134,6 +242,13 @@ func runGrp(t *testing.T, tk []string) string {
 	if bal == 4 {
 		gctx = context.WithValue(ctx, "opt_in_kafka_next_gen_balancer_beta", true) //nolint
 	}
+	// KIP-848: the heartbeat interval is the broker's (kfake: 5s) and kgo acknowledges a revocation with its next
+	// regular heartbeat, so a rebalance timeout below that interval gets every revoking member fenced (it is
+	// removed while it still holds its remaining partitions: not a graceful leave, outside C07's scope).
+	rebalanceTimeout := 4 * time.Second
+	if bal == 4 {
+		rebalanceTimeout = 20 * time.Second
+	}
 	member := func(wr *hx.Rng, lifetime time.Duration, forever bool) {
 		m := nextM.Add(1)
 		var balancer kgo.GroupBalancer
@@ -152,7 +267,7 @@ func runGrp(t *testing.T, tk []string) string {
 			kgo.ConsumerGroup("g"), kgo.ConsumeTopics("t"), kgo.Balancers(balancer),
 			kgo.ConsumeResetOffset(kgo.NewOffset().AtStart()),
 			kgo.AutoCommitInterval(time.Duration(commitms) * time.Millisecond),
-			kgo.SessionTimeout(6 * time.Second), kgo.HeartbeatInterval(300 * time.Millisecond), kgo.RebalanceTimeout(4 * time.Second),
+			kgo.SessionTimeout(6 * time.Second), kgo.HeartbeatInterval(300 * time.Millisecond), kgo.RebalanceTimeout(rebalanceTimeout),
 			kgo.FetchMaxWait(50 * time.Millisecond),
 			kgo.OnPartitionsAssigned(func(_ context.Context, _ *kgo.Client, ps map[string][]int32) {
 				log.Add("As:%d:%s", m, partsStr(ps))
@@ -256,7 +371,9 @@ func runGrp(t *testing.T, tk []string) string {
 	}
 	pwg.Wait()
 	// churn is bounded in time: wait until every slot is in its final, forever member, then for stability
-	time.Sleep(time.Duration(restarts+1)*3500*time.Millisecond + 12*time.Second)
+	time.Sleep(time.Duration(restarts+1) * 3500 * time.Millisecond)
+	faultsOn.Store(false) // the quiet end is fault free so that the group can settle
+	time.Sleep(12 * time.Second)
 	var ms []string
 	live.Range(func(k, _ any) bool { ms = append(ms, strconv.FormatInt(k.(int64), 10)); return true })
 	sort.Strings(ms)
